@@ -337,6 +337,8 @@ func (s *sys) Apply(op string) (obs, class string, viols []bfs.Viol) {
 		if st := got.Status(s.ctx, k.ClientStore(s.ctx, Name), s.f.h.C.App.AppCodec()); st != exported.Active {
 			add("installed-client-not-active/"+t, fmt.Sprintf("%s: status %s", op, st))
 		}
+		// (b2) initialised the way the type requires: everything a fresh creation of the same proposal writes is there
+		s.probeInit(op, f[0], t, cs, cons, add)
 		// (c) proofs at the installed height verify once the delay has passed and not before
 		s.probeProof(op, f[0], t, variant, add)
 		// (d) an update with a valid header from the authorised account succeeds
@@ -460,6 +462,37 @@ func (s *sys) probeProof(op, action, t string, variant int, add func(sig, d stri
 	}
 	if err := s.verify(later, t, variant); err != nil {
 		add("genuine-proof-at-installed-height-refused-after-the-delay/"+action+"/"+t, fmt.Sprintf("%s: %v", op, err))
+	}
+}
+
+// probeInit: differential oracle — on a fork whose client store is wiped, the same client is created afresh at the same
+// block time; every entry that creation writes (consensus state, processed time/height, iteration keys, header index,
+// root index, signer and pending-validator records) must be present with the same value after the upgrade or toggle.
+func (s *sys) probeInit(op, action, t string, cs exported.ClientState, cons exported.ConsensusState, add func(sig, d string)) {
+	if action == "create" {
+		return
+	}
+	k := s.f.h.C.App.XIBCKeeper.ClientKeeper
+	fresh := c07.Fork(s.ctx, s.now)
+	st := k.ClientStore(fresh, Name)
+	for key := range s.dump(fresh) {
+		st.Delete([]byte(key))
+	}
+	if err := k.CreateClient(fresh, Name, cs, cons); err != nil {
+		return // the proposal cannot be created afresh (not comparable)
+	}
+	have := s.dump(s.ctx)
+	var miss []string
+	for key, v := range s.dump(fresh) {
+		if hv, ok := have[key]; !ok {
+			miss = append(miss, fmt.Sprintf("%q missing", key))
+		} else if hv != v {
+			miss = append(miss, fmt.Sprintf("%q = %x, fresh creation writes %x", key, hv, v))
+		}
+	}
+	if len(miss) > 0 {
+		sort.Strings(miss)
+		add("installed-client-not-initialised-like-a-fresh-one/"+action+"/"+t, fmt.Sprintf("%s: %s", op, strings.Join(miss, "; ")))
 	}
 }
 
